@@ -1,0 +1,129 @@
+//go:build verif
+
+package solomachine
+
+// Contracts for the deductive verifier in /verif (govc). Comment-only; compiled only with -tags verif.
+//
+// Signature checking itself (cosmos-sdk crypto) is outside the verified code: VerifySignature establishes the
+// ghost predicate SigOK(public key, signed bytes, signature data), and nothing else does. "A signature is accepted
+// only over the exact sequence, timestamp, diversifier, path and data" is then: success implies SigOK over exactly
+// the marshalled SignBytes built from the client's current sequence/diversifier and the given timestamp/path/data.
+
+//@ import host modules/core/24-host
+
+//@ spec func SigOK(pk iface, signBytes string, sig iface) bool
+
+//@ contract VerifySignature
+//@   pure
+//@   trusted cosmos-sdk signature verification (single and multisig) is outside the verified code (T-crypto); specified by the ghost predicate SigOK
+//@   ensures err == nil ==> SigOK(pubKey, str(signBytes), sigData)
+
+//@ contract UnmarshalSignatureData
+//@   pure
+//@   trusted protobuf decoding of signature data is a deterministic function of the bytes
+
+//@ contract (ConsensusState).GetPubKey
+//@   pure
+//@   trusted unpacking the cached public key of the Any is a deterministic function of the consensus state
+
+//@ contract produceVerificationArgs
+//@   inline
+//@   let cons = deref(deref(cs).ConsensusState)
+//@   ensures current_sequence: err == nil ==> result3 == deref(cs).Sequence
+//@   ensures timestamp_not_before_consensus: err == nil ==> result2 >= cons.Timestamp
+//@   ensures key_of_consensus_state: err == nil ==> result0 == nth(cons.GetPubKey(), 0) && nth(cons.GetPubKey(), 1) == nil
+//@   ensures cs_untouched: deref(cs) == old(deref(cs)) && cons == old(cons)
+
+//@ contract (*ClientState).verifyMembership
+//@   let cs0 = deref(cs)
+//@   let cons0 = deref(deref(cs).ConsensusState)
+//@   let args = produceVerificationArgs(cdc, cs, proof)
+//@   let ts = nth(produceVerificationArgs(cdc, cs, proof), 2)
+//@   let mp = dyn(path, commitmenttypesv2.MerklePath)
+//@   modifies world(clientStore), *cs, *cs.ConsensusState
+//@   ensures signed_exactly: err == nil ==> isType(path, commitmenttypesv2.MerklePath) && len(mp.KeyPath) == 2 && SigOK(nth(args, 0), marshalOf(SignBytes{Sequence: cs0.Sequence, Timestamp: ts, Diversifier: cons0.Diversifier, Path: mp.KeyPath[1], Data: value}), nth(args, 1))
+//@   ensures sequence_consumed: err == nil ==> deref(cs).Sequence == (cs0.Sequence + 1) % 18446744073709551616
+//@   ensures timestamp_monotone: err == nil ==> deref(deref(cs).ConsensusState).Timestamp == ts && ts >= cons0.Timestamp
+//@   ensures stored: err == nil ==> vget(clientStore, host.ClientStateKey()) == str(clienttypes.MustMarshalClientState(cdc, cs))
+//@   ensures only_client_state_key: onlyKeyChanged(old(world(clientStore)), world(clientStore), prefixOf(clientStore) + str(host.ClientStateKey()))
+//@   ensures failure_unchanged: err != nil ==> world(clientStore) == old(world(clientStore)) && deref(cs) == cs0 && deref(deref(cs).ConsensusState) == cons0
+
+//@ contract (*ClientState).verifyNonMembership
+//@   let cs0 = deref(cs)
+//@   let cons0 = deref(deref(cs).ConsensusState)
+//@   let args = produceVerificationArgs(cdc, cs, proof)
+//@   let ts = nth(produceVerificationArgs(cdc, cs, proof), 2)
+//@   let mp = dyn(path, commitmenttypesv2.MerklePath)
+//@   modifies world(clientStore), *cs, *cs.ConsensusState
+//@   ensures signed_exactly: err == nil ==> isType(path, commitmenttypesv2.MerklePath) && len(mp.KeyPath) == 2 && SigOK(nth(args, 0), marshalOf(SignBytes{Sequence: cs0.Sequence, Timestamp: ts, Diversifier: cons0.Diversifier, Path: mp.KeyPath[1]}), nth(args, 1))
+//@   ensures sequence_consumed: err == nil ==> deref(cs).Sequence == (cs0.Sequence + 1) % 18446744073709551616
+//@   ensures timestamp_monotone: err == nil ==> deref(deref(cs).ConsensusState).Timestamp == ts && ts >= cons0.Timestamp
+//@   ensures only_client_state_key: onlyKeyChanged(old(world(clientStore)), world(clientStore), prefixOf(clientStore) + str(host.ClientStateKey()))
+//@   ensures failure_unchanged: err != nil ==> world(clientStore) == old(world(clientStore)) && deref(cs) == cs0 && deref(deref(cs).ConsensusState) == cons0
+
+//@ contract (*ClientState).verifyHeader
+//@   let cs0 = deref(cs)
+//@   let cons0 = deref(deref(cs).ConsensusState)
+//@   ensures timestamp_not_before_consensus: err == nil ==> header.Timestamp >= cons0.Timestamp
+//@   ensures signed_exactly: err == nil ==> SigOK(nth(cons0.GetPubKey(), 0), marshalOf(SignBytes{Sequence: cs0.Sequence, Timestamp: header.Timestamp, Diversifier: cons0.Diversifier, Path: bytes(SentinelHeaderPath), Data: bytes(marshalOf(HeaderData{NewPubKey: header.NewPublicKey, NewDiversifier: header.NewDiversifier}))}), nth(UnmarshalSignatureData(cdc, header.Signature), 0))
+//@   ensures pure: deref(cs) == cs0
+
+//@ contract (*ClientState).UpdateState
+//@   let cs0 = deref(cs)
+//@   let hdr = dyn(clientMsg, *Header)
+//@   modifies world(clientStore), *cs
+//@   ensures sequence_consumed: isType(clientMsg, *Header) ==> deref(cs).Sequence == (cs0.Sequence + 1) % 18446744073709551616
+//@   ensures new_consensus_state: isType(clientMsg, *Header) ==> deref(deref(cs).ConsensusState).Timestamp == deref(hdr).Timestamp && deref(deref(cs).ConsensusState).Diversifier == deref(hdr).NewDiversifier && deref(deref(cs).ConsensusState).PublicKey == deref(hdr).NewPublicKey
+//@   ensures only_client_state_key: onlyKeyChanged(old(world(clientStore)), world(clientStore), prefixOf(clientStore) + str(host.ClientStateKey()))
+//@   ensures not_a_header_no_change: !isType(clientMsg, *Header) ==> deref(cs) == cs0 && world(clientStore) == old(world(clientStore))
+
+//@ contract (ClientState).verifySignatureAndData
+//@   let cons0 = deref(cs.ConsensusState)
+//@   ensures signed_exactly: err == nil ==> SigOK(nth(cons0.GetPubKey(), 0), marshalOf(SignBytes{Sequence: misbehaviour.Sequence, Timestamp: sigAndData.Timestamp, Diversifier: cons0.Diversifier, Path: sigAndData.Path, Data: sigAndData.Data}), nth(UnmarshalSignatureData(cdc, sigAndData.Signature), 0))
+
+//@ contract (ClientState).verifyMisbehaviour
+//@   let cons0 = deref(cs.ConsensusState)
+//@   ensures both_signatures_valid: err == nil ==> SigOK(nth(cons0.GetPubKey(), 0), marshalOf(SignBytes{Sequence: misbehaviour.Sequence, Timestamp: misbehaviour.SignatureOne.Timestamp, Diversifier: cons0.Diversifier, Path: misbehaviour.SignatureOne.Path, Data: misbehaviour.SignatureOne.Data}), nth(UnmarshalSignatureData(cdc, misbehaviour.SignatureOne.Signature), 0)) && SigOK(nth(cons0.GetPubKey(), 0), marshalOf(SignBytes{Sequence: misbehaviour.Sequence, Timestamp: misbehaviour.SignatureTwo.Timestamp, Diversifier: cons0.Diversifier, Path: misbehaviour.SignatureTwo.Path, Data: misbehaviour.SignatureTwo.Data}), nth(UnmarshalSignatureData(cdc, misbehaviour.SignatureTwo.Signature), 0))
+
+//@ contract (Misbehaviour).ValidateBasic
+//@   ensures different_messages: err == nil ==> !(str(m.SignatureOne.Path) == str(m.SignatureTwo.Path) && str(m.SignatureOne.Data) == str(m.SignatureTwo.Data))
+//@   ensures different_signatures: err == nil ==> str(m.SignatureOne.Signature) != str(m.SignatureTwo.Signature)
+//@   ensures sequence_nonzero: err == nil ==> m.Sequence != 0
+
+// ---- light client module level: misbehaviour freezes the client; a frozen client reports Frozen
+
+//@ contract getClientState
+//@   pure
+//@   ensures found_iff_stored: result1 == (vget(store, host.ClientStateKey()) != "")
+//@   ensures absent_nil: !result1 ==> result0 == nil
+
+//@ contract (ClientState).CheckForMisbehaviour
+//@   ensures result == isType(clientMsg, *Misbehaviour)
+
+//@ contract (LightClientModule).UpdateStateOnMisbehaviour
+//@   let view = l.storeProvider.ClientStore(ctx, clientID)
+//@   let cs0 = deref(nth(getClientState(view, l.cdc), 0))
+//@   modifies world(ctx)
+//@   ensures frozen_stored: exists x ClientState :: x.IsFrozen && x.Sequence == cs0.Sequence && x.ConsensusState == cs0.ConsensusState && vget(l.storeProvider.ClientStore(ctx, clientID), host.ClientStateKey()) == marshalOf(x)
+//@   ensures confined: onlyPrefixChanged(old(world(ctx)), world(ctx), "clients/" + clientID + "/")
+
+//@ contract (LightClientModule).Status
+//@   let view = l.storeProvider.ClientStore(ctx, clientID)
+//@   let cs = nth(getClientState(view, l.cdc), 0)
+//@   let found = nth(getClientState(view, l.cdc), 1)
+//@   ensures unknown_if_absent: !found ==> result == exported.Unknown
+//@   ensures frozen_iff_flag: found ==> result == ite(deref(cs).IsFrozen, exported.Frozen, exported.Active)
+
+//@ contract (LightClientModule).VerifyMembership
+//@   let view = l.storeProvider.ClientStore(ctx, clientID)
+//@   let found = nth(getClientState(view, l.cdc), 1)
+//@   modifies world(ctx)
+//@   ensures needs_client: err == nil ==> found
+//@   ensures confined: onlyPrefixChanged(old(world(ctx)), world(ctx), "clients/" + clientID + "/")
+
+//@ contract (LightClientModule).VerifyNonMembership
+//@   let view = l.storeProvider.ClientStore(ctx, clientID)
+//@   let found = nth(getClientState(view, l.cdc), 1)
+//@   modifies world(ctx)
+//@   ensures needs_client: err == nil ==> found
+//@   ensures confined: onlyPrefixChanged(old(world(ctx)), world(ctx), "clients/" + clientID + "/")
